@@ -12,7 +12,7 @@ import CalmVerif.Util.Loop
 import CalmVerif.Model.TokenAdj
 open CalmVerif CalmVerif.Unparse CalmVerif.TokenAdj
 
-def cx0 : Ctx := mkCtx Gen.Rules.rs_indent []
+def cx0 : Ctx := mkCtx Gen.Rules.rs_indent Gen.Defs.definitions []
 
 mutual
   /-- first attribute whose value is not of its slot's type (diagnostics only; the verdict is `wfVal`) -/
